@@ -62,14 +62,14 @@ func TestVerifC19_mhcv_ctor(t *testing.T) {
 	r := verifmc.Start(t, "C19", "mhcv_ctor")
 	defer r.Finish()
 	var insts []prio.Inst
-	for _, l := range []uint{0, 1, 2, 5} {
+	for _, l := range []uint{5, 1, 2, 0} {
 		for _, w := range []uint{0, 1, 2, 5, 6} {
 			for _, c := range []uint{0, 1, 2, 5, 9} {
 				insts = append(insts, c19M(l, w, c))
 			}
 		}
 	}
-	c19Sys().UnitCtor(r, insts, []int{0, 1, 2, 3, 255})
+	c19Sys().UnitCtor(r, insts, []int{2, 3, 255, 0, 1})
 }
 
 func TestVerifC19_mhcv_agg(t *testing.T) {
@@ -82,8 +82,9 @@ func TestVerifC19_mhcv_agg(t *testing.T) {
 			c19M(4, 2, 1), c19M(4, 2, 2), c19M(4, 4, 3), c19M(10, 2, 3),
 		},
 		FullShares:  []int{2, 3},
-		LightShares: []int{4, 9, 255},
+		LightShares: []int{4, 8, 9, 255},
 		MaxBatch:    3,
+		RTMaxBatch:  2,
 		Seeds:       r.Pick(2, 5),
 		DomainLimit: 8,
 	}
